@@ -469,3 +469,97 @@ def inline_helpers(P, f, depth=2, only_private=True):
         for c in ast.iter_child_nodes(n):
             c._parent = n
     return new, count[0]
+
+
+_MATCH_CACHE = {}
+
+
+def desugar_match(stmt):
+    """`match subject: case ...` as an equivalent list of statements built from if/elif, for the patterns that have a
+    direct boolean reading: literal and constant-name values, None/True/False, `A | B`, the wildcard, a bare capture, a
+    class pattern without sub-patterns, and fixed-length sequences of those.  A guard is supported on cases that bind no
+    name.  Returns a list of statements, or None when a case is outside this fragment (the statement then stays
+    unknown to the analyses: undecided, never a violation).  The result is cached per Match node so that CFG and
+    evaluator see the same objects."""
+    if id(stmt) in _MATCH_CACHE:
+        return _MATCH_CACHE[id(stmt)][1]
+    pre = []
+    if isinstance(stmt.subject, ast.Name):
+        subj = stmt.subject
+    else:
+        name = "_match_subject_%d" % stmt.lineno
+        pre.append(ast.Assign(targets=[ast.Name(id=name, ctx=ast.Store())], value=stmt.subject, lineno=stmt.lineno, col_offset=0))
+        subj = ast.Name(id=name, ctx=ast.Load())
+
+    def S():
+        return copy.deepcopy(subj) if not isinstance(subj, ast.Name) else ast.Name(id=subj.id, ctx=ast.Load())
+
+    def pat(p, target):
+        """(condition AST or True, [binding statements]) for pattern p matched against expression-producer target()."""
+        if isinstance(p, ast.MatchValue):
+            return ast.Compare(left=target(), ops=[ast.Eq()], comparators=[copy.deepcopy(p.value)]), []
+        if isinstance(p, ast.MatchSingleton):
+            return ast.Compare(left=target(), ops=[ast.Is()], comparators=[ast.Constant(value=p.value)]), []
+        if isinstance(p, ast.MatchOr):
+            conds = []
+            for q in p.patterns:
+                c, b = pat(q, target)
+                if b:
+                    raise ValueError("bindings in alternatives")
+                if c is True:
+                    return True, []
+                conds.append(c)
+            return ast.BoolOp(op=ast.Or(), values=conds), []
+        if isinstance(p, ast.MatchAs):
+            if p.pattern is None:
+                if p.name is None:
+                    return True, []
+                return True, [ast.Assign(targets=[ast.Name(id=p.name, ctx=ast.Store())], value=target(), lineno=stmt.lineno, col_offset=0)]
+            c, b = pat(p.pattern, target)
+            return c, b + [ast.Assign(targets=[ast.Name(id=p.name, ctx=ast.Store())], value=target(), lineno=stmt.lineno, col_offset=0)]
+        if isinstance(p, ast.MatchClass) and not p.patterns and not p.kwd_patterns:
+            return ast.Call(func=ast.Name(id="isinstance", ctx=ast.Load()), args=[target(), copy.deepcopy(p.cls)], keywords=[]), []
+        if isinstance(p, ast.MatchSequence) and not any(isinstance(q, ast.MatchStar) for q in p.patterns):
+            n = len(p.patterns)
+            conds = [
+                ast.Call(func=ast.Name(id="isinstance", ctx=ast.Load()), args=[target(), ast.Tuple(elts=[ast.Name(id="list", ctx=ast.Load()), ast.Name(id="tuple", ctx=ast.Load())], ctx=ast.Load())], keywords=[]),
+                ast.Compare(left=ast.Call(func=ast.Name(id="len", ctx=ast.Load()), args=[target()], keywords=[]), ops=[ast.Eq()], comparators=[ast.Constant(value=n)]),
+            ]
+            binds = []
+            for i, q in enumerate(p.patterns):
+                c, b = pat(q, lambda i=i: ast.Subscript(value=target(), slice=ast.Constant(value=i), ctx=ast.Load()))
+                if c is not True:
+                    conds.append(c)
+                binds += b
+            return ast.BoolOp(op=ast.And(), values=conds), binds
+        raise ValueError("unsupported pattern %s" % type(p).__name__)
+
+    try:
+        chain = None  # built back to front
+        tail = []
+        for case in reversed(stmt.cases):
+            c, binds = pat(case.pattern, S)
+            if case.guard is not None:
+                if binds:
+                    raise ValueError("guard on a binding pattern")
+                c = copy.deepcopy(case.guard) if c is True else ast.BoolOp(op=ast.And(), values=[c, copy.deepcopy(case.guard)])
+            body = binds + list(case.body)
+            if c is True:
+                tail = body
+            else:
+                node = ast.If(test=c, body=body, orelse=tail, lineno=case.pattern.lineno, col_offset=0)
+                tail = [node]
+        out = pre + tail
+    except ValueError:
+        _MATCH_CACHE[id(stmt)] = (stmt, None)
+        return None
+    mod = ast.Module(body=out, type_ignores=[])
+    ast.fix_missing_locations(mod)
+    parent = getattr(stmt, "_parent", None)
+    for n in ast.walk(mod):
+        for ch in ast.iter_child_nodes(n):
+            ch._parent = n
+    for s in out:
+        s._parent = parent
+    _MATCH_CACHE[id(stmt)] = (stmt, out)
+    return out
